@@ -7,10 +7,10 @@
 //	reset <opts> <pre>   opts: comma separated, applied in order: S<n> MaxSize(n), B<n> MaxBackups(n), P Path(<dir>/app.log),
 //	                     Q Path(<dir>/sub/deeper/app.log) (directory created by Write), E Path("") (New fails)
 //	                     pre: "-" or i:n,i:n,…  pre-existing file with index i (0 = current, i = backup i) holding n
-//	                     copies of byte 200+i%50
+//	                     bytes (pBase(i)+j) mod 251, j = 0 … n-1
 //	                     M<octal> WithMask; S and B take signed numbers; without P/Q/E the rotator is only constructed
 //	                     (PathToLog must be DefaultPath()) and never written
-//	w <n>                Write of n copies of byte (k%199)+1 where k counts the `w` lines of the history; runs under a
+//	w <n>                Write of the n bytes (wBase(k)+j) mod 251 where k counts the `w` lines of the history; runs under a
 //	                     deadline, a Write that does not return prints `hang`
 //	close | sync | obs   (also under the deadline: a Close or Sync that blocks prints `hang`)
 //	reopen [<opts>]      Close, then New on the same path with the same options, or with <opts> (no path letters)
@@ -85,8 +85,16 @@ func (a *rot) cleanup() {
 
 func rotationDefaultMaxSize() int { return rotation.DefaultMaxSize }
 
-func writeTag(k int) byte { return byte(k%199 + 1) }
-func preTag(i int) byte   { return byte(200 + i%50) }
+// Byte j of the k-th write of a history is (wBase(k)+j) mod 251, byte j of the pre-existing file i is
+// (pBase(i)+j) mod 251: position-dependent, so that a permutation inside one record would show.
+func wBase(k int) int { return (k*53 + 1) % 251 }
+func pBase(i int) int { return (i*29 + 200) % 251 }
+
+func fillRec(b []byte, base int) {
+	for j := range b {
+		b[j] = byte((base + j) % 251)
+	}
+}
 
 func fileName(path string, i int) string {
 	if i == 0 {
@@ -95,20 +103,21 @@ func fileName(path string, i int) string {
 	return fmt.Sprintf("%s-%d", path, i)
 }
 
-// rle prints a byte string as runs "v*n".
-func rle(b []byte) string {
+// prog prints a byte string losslessly as maximal runs "s+n" in which every byte is its predecessor plus one modulo 251
+// (one run per record of the harness).
+func prog(b []byte) string {
 	var sb strings.Builder
 	sb.WriteByte('[')
 	for i := 0; i < len(b); {
-		j := i
-		for j < len(b) && b[j] == b[i] {
+		j := i + 1
+		for j < len(b) && int(b[j]) == (int(b[j-1])+1)%251 {
 			j++
 		}
 		if i > 0 {
 			sb.WriteByte(',')
 		}
 		sb.WriteString(strconv.Itoa(int(b[i])))
-		sb.WriteByte('*')
+		sb.WriteByte('+')
 		sb.WriteString(strconv.Itoa(j - i))
 		i = j
 	}
@@ -156,7 +165,7 @@ func observe(path string) string {
 			other = append(other, "?unreadable:"+e.Name())
 			continue
 		}
-		known = append(known, ent{idx, strconv.Itoa(idx) + "=" + rle(data)})
+		known = append(known, ent{idx, strconv.Itoa(idx) + "=" + prog(data)})
 	}
 	sort.Slice(known, func(i, j int) bool { return known[i].idx < known[j].idx })
 	sort.Strings(other)
@@ -421,7 +430,9 @@ func (a *rot) reset(f []string) string {
 				return "bad-op"
 			}
 			i, n := hx.Atoi(iv[0]), hx.Atoi(iv[1])
-			if err = os.WriteFile(fileName(a.path, i), bytes.Repeat([]byte{preTag(i)}, n), 0o644); err != nil {
+			pre := make([]byte, n)
+			fillRec(pre, pBase(i))
+			if err = os.WriteFile(fileName(a.path, i), pre, 0o644); err != nil {
 				return "prefile-error"
 			}
 		}
@@ -472,10 +483,7 @@ func (a *rot) Run(line string) string {
 			a.buf = make([]byte, n, n+n/2+16)
 		}
 		b := a.buf[:n]
-		tag := writeTag(a.k)
-		for i := range b {
-			b[i] = tag
-		}
+		fillRec(b, wBase(a.k))
 		a.k++
 		res, ok := a.g.call(func() wres { n, err := r.Write(b); return wres{n, err} }, dir)
 		if !ok {
